@@ -43,6 +43,17 @@ func (rows *leveldbRows) Delete(key keyType) {
 	}
 }
 
+// DeleteAll deletes the given rows in one atomic batch.
+func (rows *leveldbRows) DeleteAll(keys []keyType) {
+	batch := new(leveldb.Batch)
+	for _, key := range keys {
+		batch.Delete(key)
+	}
+	if err := rows.db.Write(batch, nil); err != nil {
+		panic(err)
+	}
+}
+
 func (rows *leveldbRows) Get(key keyType) *btpb.Row {
 	item, err := rows.db.Get(key, nil)
 	if err == leveldb.ErrNotFound {
